@@ -113,9 +113,15 @@ two_pass = c01.two_pass
 compare = c01.compare
 
 def oracle(scn, outs):
-    for o in outs:
-        if o in ("exit", "abort"):
-            return "the encoder/decoder terminated the process (%s)" % o
+    for l, o in zip(scn.lines, outs):
+        if o == "exit" or o.endswith(" exit"):
+            return "the library terminated the process (exit) at %s" % l.split()[0]
+        if o == "abort":
+            if l.startswith("ds.encode") or l.startswith("ds.decode"):
+                return "the encoder/decoder terminated the process (abort)"
+            # refused while the dataset was being built (e.g. more than 64 bits of associated field:
+            # "current implementation does not support"): there is no dataset for the property to speak of
+            return None
     inv = "0"
     pending = set()
     # walk the scenario: the dataset as listed before each ds.encode is what that message must decode to
